@@ -102,6 +102,10 @@ func (p *parser) parseMessage() (ok bool) {
 		if !ok {
 			return false
 		}
+		if p.pos != len(p.input) {
+			// bytes left over after the data item
+			return false
+		}
 		p.msg = ast.NewHSMSDataMessage("", stream, function, waitBit, "H<->E", dataItem, sessionID, systemBytes)
 		return true
 
